@@ -20,6 +20,7 @@ EXC = {
     "KeyboardInterrupt": KeyboardInterrupt, "TypeError": TypeError, "AttributeError": AttributeError,
 }
 LAST_RAISED = [None]
+RAISED = []            # every injected exception object of the current evaluation, in the order of firing
 
 
 def space_path(space):
@@ -113,6 +114,7 @@ def P(space, name, pt, *args):
         if exc:
             e = EXC[exc]("injected at %r" % (site,))
             LAST_RAISED[0] = e
+            RAISED.append(e)
             raise e
     return 0
 
@@ -181,6 +183,7 @@ def reset():
     global PLAN
     PLAN = None
     LAST_RAISED[0] = None
+    del RAISED[:]
     Bomb.ARM.update(dump=0, load=0)
     Bomb.FIRED.update(dump=0, load=0)
 
